@@ -20,6 +20,9 @@ def build_set(scn, r):
             row["length"] = (tm["t"] - tm["h"]) / T
         content[LISTS[o["k"]]].append(row)
     content["bpms"] = [{"offset": st / T, "bpm": 60000.0 * T / b["bl"], "metronome": 4} for b, st in zip(scn["bpms"], scn["starts"])]
+    if scn.get("how") == "dup_tempo":
+        # the last tempo point overrides another one on the spot (same time, listed before it): the timeline is unchanged
+        content["bpms"].insert(len(content["bpms"]) - 1, dict(content["bpms"][-1], bpm=content["bpms"][-1]["bpm"] * 1.5))
     maps = []
     for k in range(2 if scn.get("two_charts") else 1):
         m = new_map("sm", {kk: [dict(x) for x in v] for kk, v in content.items()})
@@ -79,7 +82,7 @@ def exec_write(scn):
     how = scn["how"]
     on_lines = all(b["p48"] % 192 == 0 for b in scn["bpms"])
     try:
-        if how in ("built", "rated", "rated_odd", "edit_rewrite", "unsorted_bpms"):
+        if how in ("built", "rated", "rated_odd", "edit_rewrite", "unsorted_bpms", "dup_tempo"):
             ms = build_set(scn, r)
             if how == "rated":
                 ms = ms.rate(2.0).rate(0.5)
